@@ -17,7 +17,8 @@ Part F  forms: all js forms x all css forms (absent, empty, str, list, dict of s
 Part P  pair rule: template/js/css x {absent, inline (incl. ""), file} per class - the full
         27^n product for n <= 2 and per-pair products for n = 3 (4 in thorough) over every
         shape, two opposite access sweeps; "both members in one class" must be rejected.
-Part H  histories: for small hierarchies BFS to a fixpoint over all accesses
+Part H  histories: for every hierarchy with n <= 2 (n = 3 in thorough; <= 2 bases, extend lists of one
+        class) x 3 assignments of inline / file / absent pair members, BFS to a fixpoint over all accesses
         (.media/.template/.js/.css/.*_file on class, .media/.template/.js/.css on instance),
         states merged by the complete lazy-resolution state (ComponentMedia fields, Media
         attributes, media_cache entry); every observation is compared with the model and
@@ -515,6 +516,37 @@ def orders_for(n, mode):
     return out
 
 
+def describe(spec):
+    """one-line rendering of a hierarchy for failure messages"""
+    out = []
+    for i, c in enumerate(spec["classes"]):
+        bases = ",".join(f"c{j}" for j in c["bases"]) or "Component"
+        body = []
+        m = c.get("media")
+        if m == "none":
+            body.append("Media=None")
+        elif m is not None:
+            inner = []
+            for k in ("js", "css"):
+                if k in m:
+                    inner.append(f"{k}={m[k]!r}")
+            if "extend" in m:
+                e = m["extend"]
+                inner.append("extend=" + (repr(e) if isinstance(e, bool) else "[" + ",".join(f"c{j}" for j in e) + "]"))
+            body.append("Media(" + ", ".join(inner) + ")")
+        for inl, fil in PAIRS:
+            p_ = c.get(inl)
+            if p_:
+                if p_[0] in ("inline", "both"):
+                    body.append(f"{inl}={p_[1]!r}")
+                if p_[0] == "file":
+                    body.append(f"{p_[2] if len(p_) > 2 else fil}={p_[1]!r}")
+                if p_[0] == "both":
+                    body.append(f"{p_[3] if len(p_) > 3 else fil}={p_[2]!r}")
+        out.append(f"c{i}({bases}): " + ("; ".join(body) or "pass"))
+    return " | ".join(out)
+
+
 # ------------------------------------------------------------------ media cases (parts S, L, F)
 def run_media_case(agg, part, idx, spec, orders, tags=False, verbose=False):
     """All orders of .media over the classes of one hierarchy. Returns True when clean."""
@@ -531,7 +563,12 @@ def run_media_case(agg, part, idx, spec, orders, tags=False, verbose=False):
             mo = w.model
             for i in range(n):
                 ca = mo.contrib(i, "A")
-                if len(ca) >= 2 or ca != mo.contrib_all_bases(i):  # a real merge, or extend really selects
+                if part == "L":  # two contributing lists share a file: de-duplication / ordering is exercised
+                    for medium in ("js",):
+                        ls = [set(mo.decl[k].get(medium, [])) for k in ca]
+                        if any(a & b for a, b in itertools.combinations(ls, 2)):
+                            nontrivial = True
+                elif len(ca) >= 2 or ca != mo.contrib_all_bases(i):  # a real merge, or extend really selects
                     nontrivial = True
                 agg.expected["agnostic" if mo.agnostic(i) else f"contrib{min(len(ca), 4)}"] += 1
         for c, via in order:
@@ -542,6 +579,9 @@ def run_media_case(agg, part, idx, spec, orders, tags=False, verbose=False):
             if verbose:
                 print(f"  order {oi} class {c} via {via}: {obs}")
             problem = w.model.check(c, "media", obs)
+            if problem is None and oi == 0 and w.model.agnostic(c):
+                a_ok = w.model._check_media_reading(obs, w.model.contrib(c, "A")) is None
+                agg.extra["agnostic_class_follows_own_Media_reading" if a_ok else "agnostic_class_follows_attribute_lookup_reading"] += 1
             if problem is None and c in first and first[c][0] != obs:
                 problem = ("access-order", f"media of class {c} is {obs[1:]} in access order {order} but "
                                            f"{first[c][0][1:]} in access order {first[c][1]}")
@@ -550,7 +590,7 @@ def run_media_case(agg, part, idx, spec, orders, tags=False, verbose=False):
                 problem = check_tags(w, c, via, obs)
             if problem:
                 ok = False
-                agg.fail(f"{part}/{problem[0]}/n={n}", f"[{part}] {problem[1]}",
+                agg.fail(f"{part}/{problem[0]}/n={n}", f"[{part}] {problem[1]} -- {describe(spec)}",
                          {"part": part, "idx": idx, "spec": spec, "orders": [order] if problem[0] != "access-order" else [first[c][1], order],
                           "tags": tags})
                 break
@@ -780,7 +820,7 @@ def run_pair_case(agg, idx, spec, verbose=False):
                 problem = ("access-order", f"{attr} of class {i} is {obs[1:]} in sweep {si} but {first[(i, attr)][1:]} in sweep 0")
             first.setdefault((i, attr), obs)
             if problem:
-                agg.fail(f"P/{problem[0]}/{attr}", f"[P] {problem[1]}", {"part": "P", "idx": idx, "spec": spec})
+                agg.fail(f"P/{problem[0]}/{attr}", f"[P] {problem[1]} -- {describe(spec)}", {"part": "P", "idx": idx, "spec": spec})
                 w.close()
                 return False
         w.close()
@@ -835,7 +875,7 @@ def run_both_case(agg, idx, spec, k, inl, verbose=False):
         if verbose:
             print("  created; reads:", o1, o2)
         if o1[0] != "exc" and o2[0] != "exc":
-            agg.fail(f"P/both-accepted/{inl}", f"[P] class {k} defines both {inl} and {FILE_OF[inl]} and is accepted: {inl} -> {o1[1]!r}",
+            agg.fail(f"P/both-accepted/{inl}", f"[P] class {k} defines both {inl} and {FILE_OF[inl]} and is accepted: {inl} -> {o1[1]!r} -- {describe(spec)}",
                      {"part": "PB", "idx": idx, "spec": spec, "k": k, "inl": inl})
             ok = False
     w.close()
@@ -893,7 +933,7 @@ def h_stream(mark, tier):
             for rot in range(3):
                 yield h_spec(mark, base, rot)
     if tier != "quick":
-        for base in gen_S(mark, 3, 2, 1, "lite", sink_only=True):
+        for base in gen_S(mark, 3, 2, 1, "lite"):
             for rot in range(3):
                 yield h_spec(mark, base, rot)
 
@@ -964,7 +1004,7 @@ def run_history_case(agg, idx, spec, unmerged_depth=0, verbose=False):
         ok = False
         if verbose:
             print("  history", hist, "->", text)
-        agg.fail(f"H/{clause}/{hist[-1][0]}", f"[H] after {hist[:-1]}: {text}", {"part": "H", "idx": idx, "spec": spec, "history": hist})
+        agg.fail(f"H/{clause}/{hist[-1][0]}", f"[H] after {hist[:-1]}: {text} -- {describe(spec)}", {"part": "H", "idx": idx, "spec": spec, "history": hist})
     if ok and unmerged_depth:
         n_seq, n_tr, failures, outcomes, canon_states = seq.all_sequences(lambda: HWorld(spec, solo), ops, h_step, unmerged_depth, canon=h_canon)
         agg.extra["h_unmerged_sequences"] += n_seq
@@ -976,7 +1016,7 @@ def run_history_case(agg, idx, spec, unmerged_depth=0, verbose=False):
         for problem, hist in failures[:1]:
             clause, text = problem.split("|", 1)
             ok = False
-            agg.fail(f"H/{clause}/{hist[-1][0]}", f"[H] after {hist[:-1]}: {text}", {"part": "H", "idx": idx, "spec": spec, "history": hist})
+            agg.fail(f"H/{clause}/{hist[-1][0]}", f"[H] after {hist[:-1]}: {text} -- {describe(spec)}", {"part": "H", "idx": idx, "spec": spec, "history": hist})
     if World.last:
         World.last.close()
     return ok
